@@ -60,6 +60,11 @@ pub fn any_stk<T: kani::Arbitrary + Copy>(n: usize) -> Stk<T> {
     kani::assume(max >= n); // capacity invariant (inductive: C03)
     Stk { v, n, max }
 }
+/// lean pre-state for the arithmetic kernels (multiply / divide / power ...): no output bytes
+#[cfg(kani)]
+pub fn any_model_lean(di: usize, df: usize, db: usize) -> Model {
+    Model { i: any_stk(di), f: any_stk(df), b: any_stk(db), out: [0; OUTN], nout: 0 }
+}
 /// pre-state: stacks of the given depths with symbolic contents and symbolic maxima >= depth
 #[cfg(kani)]
 pub fn any_model(di: usize, df: usize, db: usize) -> Model {
